@@ -150,10 +150,21 @@ def patch_rules(facts, rep, rule="C01-PATCH"):
     hdr = calls_matching(se, r"^write::write_local_file_header$")
     if not hdr:
         raise AnchorLost("start_entry no longer calls write_local_file_header")
+    # references to (parts of) the record held in locals: `_x = &mut (*self).stats` (what an inlined `stats.restart(..)` works through)
+    alias = {}
+    for _ in range(3):
+        for bi, si, s in se.stmts():
+            if s["k"] == "assign" and not s["place"]["p"] and s["rv"]["k"] == "ref":
+                pl_ = s["rv"]["place"]
+                pre = alias.get(pl_["l"], [])
+                alias[s["place"]["l"]] = pre + [q.get("n") for q in pl_["p"] if q["k"] == "field"]
+            elif s["k"] == "assign" and not s["place"]["p"] and s["rv"]["k"] == "use" and s["rv"]["op"]["k"] in ("move", "copy") and not s["rv"]["op"]["place"]["p"] \
+                    and s["rv"]["op"]["place"]["l"] in alias:
+                alias[s["place"]["l"]] = alias[s["rv"]["op"]["place"]["l"]]
     for bi, si, s in se.stmts():
         if s["k"] != "assign":
             continue
-        fp = [p.get("n") for p in s["place"]["p"] if p["k"] == "field"]
+        fp = alias.get(s["place"]["l"], []) + [p.get("n") for p in s["place"]["p"] if p["k"] == "field"]
         fields = []
         if len(fp) >= 2 and fp[-2] == "stats" and fp[-1] in resets:
             fields = [(fp[-1], norm(exs.rvalue(s["rv"], (bi, si))))]
@@ -171,8 +182,14 @@ def patch_rules(facts, rep, rule="C01-PATCH"):
             else:
                 good = e[0] == "call" and e[1].endswith("Hasher::new")
             resets[fname] = (good, s, e)
+    from rules.shared_typestate import holds as _tsx
     for k, v in resets.items():
         good = bool(v and v[0])
+        if not good and k in ("bytes_written", "hasher") and _tsx(facts, "unsupported", "P5:"):
+            # not recognised structurally; the obligation itself (every successfully opened entry starts with fresh accounting, over
+            # all call sequences) is decided by the typestate engine
+            rep.ok(rule, "start_entry:stats.%s" % k, where(se, se.span), "reset not recognised structurally; C12-TSX P5 (fresh per-entry accounting in every reachable state) holds")
+            continue
         ok &= good
         rep.check(good, rule, "start_entry:stats.%s" % k, where(se, v[1]["span"]) if v else where(se, se.span),
                   "stats.%s reset when an entry is opened" % k,
